@@ -25,6 +25,7 @@ def gen_model(rng, mode):
     """plain-data topology.  mode 'hostile': repeated/None chain ids, repeated/zero/negative resSeq, odd serials,
     typed bonds anywhere.  mode 'friendly': what file carriers are built for."""
     n_chains = rng.randint(1, 4 if mode == 'hostile' else 2)
+    dupnames = rng.chance(0.35)
     chains, residues, atoms = [], [], []
     serial = rng.choice([1, 1, 5, 100, 0]) if mode == 'hostile' else rng.choice([1, 1, 0, 3])
     resseq = rng.choice([1, 1, 0, -2, 10])
@@ -40,7 +41,9 @@ def gen_model(rng, mode):
             na = rng.randint(1, 4)
             for a in range(na):
                 e = rng.choice(ELEMS if mode == 'hostile' else ELEMS[:-1])
-                atoms.append({'name': '%s%d' % (e[0], a + 1), 'elem': e, 'serial': serial, 'res': len(residues) - 1})
+                # generic force-field / mol2 style: several atoms of a residue may carry the same name
+                nm = e[0] if (mode == 'hostile' and dupnames) else '%s%d' % (e[0], a + 1)
+                atoms.append({'name': nm, 'elem': e, 'serial': serial, 'res': len(residues) - 1})
                 serial += rng.choice([1, 1, 1, 2, 7]) if mode == 'hostile' else 1
     n = len(atoms)
     bonds = set()
@@ -260,6 +263,11 @@ def carrier_limits(carrier, model):
                 structural = True                  # residues are told apart by their number in the file
         if any(c is not None and len(c) != 1 for c in chain_ids):
             structural = True
+        seen = set()
+        for a in model['atoms']:
+            if (a['res'], a['name']) in seen:
+                structural = True                  # the reader treats a repeated atom name in a residue as an alternate location
+            seen.add((a['res'], a['name']))
         ids = [c for c in chain_ids]
         if len(model['chains']) > 1 and (any(c is None for c in ids) is False) and len(set(ids)) != len(ids):
             structural = True                      # two chains with the same one-letter id are merged by the reader
